@@ -14,6 +14,7 @@ import (
 	"io"
 	"log/slog"
 	"os"
+	"runtime"
 	"sort"
 	"strings"
 	"sync"
@@ -856,6 +857,16 @@ func (rn *smRunner) mismatch(beh, step int, st smStep, d []string) {
 }
 
 func (rn *smRunner) run(b smBehaviour) {
+	// a behaviour that does not finish (a goroutine of the component or of the harness is wedged) must not hold the whole
+	// batch until the outer timeout: the child ends here, the parent attributes the death to the last begun step and goes on
+	hangGuard := time.AfterFunc(120*time.Second, func() {
+		rn.out.Emit(vc.M{"kind": "hang", "beh": b.ID})
+		rn.out.Flush()
+		buf := make([]byte, 1<<20)
+		os.Stderr.Write(buf[:runtime.Stack(buf, true)])
+		os.Exit(3)
+	})
+	defer hangGuard.Stop()
 	w := rn.w
 	rec := &recorder{}
 	hub := &smHub{w: w, rec: rec, own: map[string]tmconsensus.ProposedHeader{}, ownBy: map[string]string{}, finalized: map[uint64]string{}}
